@@ -4,7 +4,7 @@
     tools/run_all_seeded.py [id-prefix...]     -> tools/seeded.results.json"""
 import os, sys, json, glob, subprocess, time, re
 HERE = os.path.dirname(os.path.abspath(__file__)); VERIF = os.path.dirname(HERE)
-WT = '/var/tmp/verif-seeded-all/wt'
+WT = '/var/tmp/verif-seeded-all/wt%d' % os.getpid()
 def sh(c): return subprocess.run(c, shell=True, stdout=subprocess.PIPE, stderr=subprocess.STDOUT, text=True)
 os.makedirs(os.path.dirname(WT), exist_ok=True)
 sh('git -C /repo worktree remove --force %s' % WT)
@@ -27,5 +27,10 @@ try:
         res.append(rec); print('%-10s %s exit=%d %6.1fs %s' % (sid, 'DETECTED' if rec['detected'] else '** MISSED **', c.returncode, rec['seconds'], keys[:2])); sys.stdout.flush()
 finally:
     sh('git -C /repo worktree remove --force %s' % WT); sh('rmdir %s' % os.path.dirname(WT))
-json.dump(res, open(os.path.join(HERE, 'seeded.results.json'), 'w'), indent=1)
+out = os.path.join(HERE, 'seeded.results.json')
+prev = []
+if sys.argv[1:] and os.path.exists(out):
+    done = set(r['id'] for r in res)
+    prev = [r for r in json.load(open(out)) if r['id'] not in done]
+json.dump(sorted(prev + res, key=lambda r: r['id']), open(out, 'w'), indent=1)
 sys.exit(0 if all(r.get('detected') == r.get('expected_detected', True) for r in res) else 1)
